@@ -803,12 +803,14 @@ def c20(ctx):
     files += lockorder_family(ctx)
     ctx.validate(files)
     # concurrent writers on ONE stream (blocking-write mode, short deadlines): WriteSeq.tla + real-time histories
-    ctx.tlc_design("WriteSeq", "MC_WriteSeq_lock.cfg", workers=4, timeout=600)
-    neg = L.run_tlc(ctx.scr, "WriteSeq", "MC_WriteSeq_nolock.cfg", workers=2, timeout=300)
-    if "GaplessInv" not in neg["invariant_violated"]:
-        raise L.MachineryError("negative control failed: WriteSeq without the write lock must violate GaplessInv\n" + neg["out"][-1500:])
-    ctx.design.append({"module": "WriteSeq", "cfg": "MC_WriteSeq_nolock.cfg (negative control: violation expected and found)", "distinct": neg["distinct"],
-                       "generated": neg["generated"], "wall_s": neg["wall_s"], "ok": True, "cmd": neg["cmd"]})
+    for c in ("lock", "nb_lock"):
+        ctx.tlc_design("WriteSeq", "MC_WriteSeq_%s.cfg" % c, workers=4, timeout=600)
+    for c in ("nolock", "nb_nolock"):
+        neg = L.run_tlc(ctx.scr, "WriteSeq", "MC_WriteSeq_%s.cfg" % c, workers=2, timeout=300)
+        if "GaplessInv" not in neg["invariant_violated"]:
+            raise L.MachineryError("negative control failed: WriteSeq without the write lock must violate GaplessInv\n" + neg["out"][-1500:])
+        ctx.design.append({"module": "WriteSeq", "cfg": "MC_WriteSeq_%s.cfg (negative control: violation expected and found)" % c, "distinct": neg["distinct"],
+                           "generated": neg["generated"], "wall_s": neg["wall_s"], "ok": True, "cmd": neg["cmd"]})
     mw = ctx.scr.mkdir("mw")
     ps = L.run_shards(binp, "mw-rt", mw, 4 if ctx.quick else 16, {"VF_N": 3 if ctx.quick else 12, "VF_SEED": ctx.seed})
     race_scan(ctx, ps, mw, "mw-rt")
